@@ -68,6 +68,9 @@ pub enum BvHow {
     /// `BitVectorMut::new()`, then the bits in pieces: `extend` from exact and loose bool
     /// iterators, single pushes for short pieces; then `into()`
     ExtendPieces(u8),
+    /// `BitVectorMut::with_zeros(n)`, then `set(p, true)` for every one (in a rotated order), then
+    /// `into()`
+    ZerosThenSet,
 }
 
 impl BvHow {
@@ -155,6 +158,15 @@ pub fn plain_bv(how: BvHow, bits: &[bool]) -> BitVector {
         BvHow::Default => BitVector::default(),
         BvHow::BoolsLoose(mode) => crate::loose::loose_iter(bits.to_vec(), mode).collect(),
         BvHow::PosLoose(mode) => crate::loose::loose_iter(positions_of(bits), mode).collect(),
+        BvHow::ZerosThenSet => {
+            let mut m = BitVectorMut::with_zeros(bits.len());
+            let p = positions_of(bits);
+            let k = p.len();
+            for j in 0..k {
+                m.set(p[(j + k / 3) % k], true);
+            }
+            m.into()
+        }
         BvHow::ExtendPieces(mode) => {
             let mut m = BitVectorMut::new();
             for (j, piece) in crate::loose::pieces(bits, mode as u64).into_iter().enumerate() {
